@@ -279,7 +279,7 @@ func ApplyOp(d *document.Document, op Op, valBase int, fail string) (res Resolve
 				guard = "KF-ARRAYSET-GC-LEAK"
 				return nil
 			}
-			if Guards && a.Get(i).MovedAt() != nil {
+			if Guards && !ExtraGuards["no:KF-ARRAY-SET-MOVED"] && a.Get(i).MovedAt() != nil {
 				// KF-ARRAY-SET-MOVED: Set on an element whose position was moved
 				guard = "KF-ARRAY-SET-MOVED"
 				return nil
